@@ -799,7 +799,23 @@ def s6_outer_derived(tier):
     return out
 
 
-STRATA = {'S6a': s6_outer_derived, 'S3s': s3_strided, 'S1n': s1_numeric, 'S9': s9, 'S1p': s1_pairs, 'S1xa': s1_exclude_a11, 'S2s': s2_small, 'S1L': s1_latin3, 'S1': s1, 'S1x': s1_exclude, 'S2': s2, 'S3': s3, 'S4': s4, 'S5': s5, 'S6': s6}
+def s1_derived_of_derived(tier):
+    """a Transition factor over a within-trial DERIVED factor (two derivation steps), crossed: the preamble trial's derived value feeds
+    the first transition"""
+    out = []
+    A = basic('A', 2)
+    B = basic('B', 2)
+    fm = {'A': A, 'B': B}
+    W = within('W', ['A', 'B'], fm, same)
+    fm['W'] = W
+    TW = window('TW', ['W'], fm, 2, same, kind='transition', start=1)
+    for cr in (['TW'], ['A', 'TW'], ['B', 'TW']):
+        for cs in ([], [{'c': 'AtMostKInARow', 'k': 1, 'factor': 'TW', 'level': 'tw0'}], [{'c': 'Pin', 'index': 0, 'factor': 'W', 'level': 'w0'}]):
+            out.append(spec([A, B, W, TW], cross(['A', 'B', 'W', 'TW'], cr, cs), 'S1d'))
+    return out
+
+
+STRATA = {'S1d': s1_derived_of_derived, 'S6a': s6_outer_derived, 'S3s': s3_strided, 'S1n': s1_numeric, 'S9': s9, 'S1p': s1_pairs, 'S1xa': s1_exclude_a11, 'S2s': s2_small, 'S1L': s1_latin3, 'S1': s1, 'S1x': s1_exclude, 'S2': s2, 'S3': s3, 'S4': s4, 'S5': s5, 'S6': s6}
 
 
 def shape_key(d):
